@@ -218,7 +218,47 @@ func foldCond(v ssa.Value, isID func(ssa.Value) bool, id int64, depth int) (val,
 			}
 		}
 		c, isC := ssaConstInt(b)
-		if !isC || !isID(stripConv(a)) {
+		if !isC {
+			// the id against a length: a length is some L >= 0, which decides the comparison when the id is small enough
+			flip := map[token.Token]token.Token{token.LSS: token.GTR, token.LEQ: token.GEQ, token.GTR: token.LSS, token.GEQ: token.LEQ, token.EQL: token.EQL, token.NEQ: token.NEQ}
+			l, o := a, op
+			switch {
+			case isLenCall(stripConv(a)) && isID(stripConv(b)):
+			case isLenCall(stripConv(b)) && isID(stripConv(a)):
+				l, o = b, flip[op]
+			default:
+				return false, false
+			}
+			_ = l
+			switch o { // L o id
+			case token.LSS:
+				if id <= 0 {
+					return false, true
+				}
+			case token.GEQ:
+				if id <= 0 {
+					return true, true
+				}
+			case token.GTR:
+				if id < 0 {
+					return true, true
+				}
+			case token.LEQ:
+				if id < 0 {
+					return false, true
+				}
+			case token.EQL:
+				if id < 0 {
+					return false, true
+				}
+			case token.NEQ:
+				if id < 0 {
+					return true, true
+				}
+			}
+			return false, false
+		}
+		if !isID(stripConv(a)) {
 			return false, false
 		}
 		switch op {
@@ -303,3 +343,12 @@ func foldedEdges(isID func(ssa.Value) bool, id int64) func(b *ssa.BasicBlock, si
 }
 
 func isSetIDValue(v ssa.Value) bool { return strings.Contains(fieldLoadName(v), "SetID") }
+
+func isLenCall(v ssa.Value) bool {
+	c, ok := v.(*ssa.Call)
+	if !ok {
+		return false
+	}
+	b, ok := c.Common().Value.(*ssa.Builtin)
+	return ok && b.Name() == "len"
+}
